@@ -169,7 +169,7 @@ func checkC03(c *km.Ctx) {
 	nCalls := 0
 	for _, ci := range km.CallsIn(h) {
 		callee := km.StaticCallee(ci.Common())
-		if callee == nil || (callee.Name() != "postAuthSSHCertHandler" && callee.Name() != "postAuthX509CertHandler") {
+		if callee == nil || (km.NameOf(callee) != "postAuthSSHCertHandler" && km.NameOf(callee) != "postAuthX509CertHandler") {
 			continue
 		}
 		nCalls++
@@ -181,16 +181,16 @@ func checkC03(c *km.Ctx) {
 			}
 		}
 		if dur == nil {
-			r.Add("R-C03-1", km.FuncName(h), "duration operand of "+callee.Name(), posOf(c, ci), "a time.Duration operand", "none", false)
+			r.Add("R-C03-1", km.FuncName(h), "duration operand of "+km.NameOf(callee), posOf(c, ci), "a time.Duration operand", "none", false)
 			continue
 		}
 		st := c.F.At(ci)
 		cap24 := st.All(func(k km.Conj) bool { x, _, _ := bounds(k, h, dur, 0); return x })
 		capAge := st.All(func(k km.Conj) bool { _, y, _ := bounds(k, h, dur, 0); return y })
 		nonNeg := st.All(func(k km.Conj) bool { _, _, z := bounds(k, h, dur, 0); return z })
-		r.Add("R-C03-1", km.FuncName(h), "duration <= 24h at "+callee.Name(), posOf(c, ci), "duration <= maxCertificateLifetime (24 h) on every path", sprintf("%v", cap24), cap24)
-		r.Add("R-C03-1", km.FuncName(h), "duration <= remaining session age at "+callee.Name(), posOf(c, ci), "duration <= time.Until(authInfo.IssuedAt + 24 h) on every path", sprintf("%v", capAge), capAge)
-		r.Add("R-C03-1", km.FuncName(h), "duration >= 0 at "+callee.Name(), posOf(c, ci), "duration >= 0 on every path", sprintf("%v", nonNeg), nonNeg)
+		r.Add("R-C03-1", km.FuncName(h), "duration <= 24h at "+km.NameOf(callee), posOf(c, ci), "duration <= maxCertificateLifetime (24 h) on every path", sprintf("%v", cap24), cap24)
+		r.Add("R-C03-1", km.FuncName(h), "duration <= remaining session age at "+km.NameOf(callee), posOf(c, ci), "duration <= time.Until(authInfo.IssuedAt + 24 h) on every path", sprintf("%v", capAge), capAge)
+		r.Add("R-C03-1", km.FuncName(h), "duration >= 0 at "+km.NameOf(callee), posOf(c, ci), "duration >= 0 on every path", sprintf("%v", nonNeg), nonNeg)
 	}
 	if nCalls < 1 {
 		r.AnchorLost("R-C03-1", sprintf("issuing calls in certGenHandler (found %d)", nCalls))
